@@ -34,8 +34,8 @@ import (
 )
 
 const (
-	localMax, globalMax = 2, 5
-	localQPS, localBurst = 2, 2
+	localMax, globalMax    = 2, 5
+	localQPS, localBurst   = 2, 2
 	globalQPS, globalBurst = 4, 8
 )
 
@@ -88,43 +88,63 @@ func newStub() *stubSets {
 
 // ------------------------------------------------------------------ schemas
 
-func mifSchema(strategy proxyv1alpha1.LimitStrategy) proxyv1alpha1.FlowControlSchema {
+func mifSchema(strategy proxyv1alpha1.LimitStrategy, gMax int32) proxyv1alpha1.FlowControlSchema {
 	return proxyv1alpha1.FlowControlSchema{Name: "s", Strategy: strategy, FlowControlSchemaConfiguration: proxyv1alpha1.FlowControlSchemaConfiguration{
 		MaxRequestsInflight:       &proxyv1alpha1.MaxRequestsInflightFlowControlSchema{Max: localMax},
-		GlobalMaxRequestsInflight: &proxyv1alpha1.MaxRequestsInflightFlowControlSchema{Max: globalMax}}}
+		GlobalMaxRequestsInflight: &proxyv1alpha1.MaxRequestsInflightFlowControlSchema{Max: gMax}}}
 }
-func tbSchema(strategy proxyv1alpha1.LimitStrategy) proxyv1alpha1.FlowControlSchema {
+func tbSchema(strategy proxyv1alpha1.LimitStrategy, gQPS, gBurst int32) proxyv1alpha1.FlowControlSchema {
 	return proxyv1alpha1.FlowControlSchema{Name: "s", Strategy: strategy, FlowControlSchemaConfiguration: proxyv1alpha1.FlowControlSchemaConfiguration{
 		TokenBucket:       &proxyv1alpha1.TokenBucketFlowControlSchema{QPS: localQPS, Burst: localBurst},
-		GlobalTokenBucket: &proxyv1alpha1.TokenBucketFlowControlSchema{QPS: globalQPS, Burst: globalBurst}}}
+		GlobalTokenBucket: &proxyv1alpha1.TokenBucketFlowControlSchema{QPS: gQPS, Burst: gBurst}}}
+}
+
+// the configured global limit can itself be edited while answers are in force (lowered values stay >= the local ones)
+const loweredMax, loweredQPS, loweredBurst = 3, 3, 6
+
+func (w *world) syncSpec() {
+	sc := mifSchema(w.strategy, int32(w.gMax))
+	if w.typ == "tb" {
+		sc = tbSchema(w.strategy, int32(w.gQPS), int32(w.gBurst))
+	}
+	w.lim.Sync(proxyv1alpha1.FlowControl{Schemas: []proxyv1alpha1.FlowControlSchema{sc}})
+}
+
+func specSteps() []step {
+	return []step{
+		{name: "spec: global limit lowered", spec: true, do: func(w *world) { w.gMax, w.gQPS, w.gBurst = loweredMax, loweredQPS, loweredBurst; w.syncSpec() }},
+		{name: "spec: global limit restored", spec: true, do: func(w *world) { w.gMax, w.gQPS, w.gBurst = globalMax, globalQPS, globalBurst; w.syncSpec() }},
+	}
 }
 
 type world struct {
-	lim    flowcontrols.UpstreamLimiter
-	stub   *stubSets
-	cancel context.CancelFunc
-	typ    string // mif | tb
+	lim                flowcontrols.UpstreamLimiter
+	stub               *stubSets
+	cancel             context.CancelFunc
+	typ                string // mif | tb
+	strategy           proxyv1alpha1.LimitStrategy
+	gMax, gQPS, gBurst int // the global limit currently configured
 	// bookkeeping for the oracle
 	lastGood   int32 // last quota delivered by a good answer while ready (allocate), -1 none
 	everGood   bool
 	lastFailed bool
 	reqTime    int64
+	// the configured global limit was lowered and the server has not been heard since: what it granted before the
+	// edit may stay in force until its next answer (the property quantifies over server answers for a configuration,
+	// not over the instant of a configuration edit); from the next answer that the gateway applies on, the NEW limit binds
+	editPending bool
 }
 
 func newWorld(typ string, strategy proxyv1alpha1.LimitStrategy) *world {
 	vtime.SetVirtual(time.Unix(1700000000, 0))
 	remote.VerifSetWaitAcquireTimeout(time.Millisecond)
 	ctx, cancel := context.WithCancel(context.Background())
-	w := &world{stub: newStub(), cancel: cancel, typ: typ, lastGood: -1, reqTime: 1000}
+	w := &world{stub: newStub(), cancel: cancel, typ: typ, strategy: strategy, gMax: globalMax, gQPS: globalQPS, gBurst: globalBurst, lastGood: -1, reqTime: 1000}
 	if strategy == proxyv1alpha1.GlobalCountLimit {
 		w.stub.noAPI = true
 	}
 	w.lim = flowcontrols.NewUpstreamLimiter(ctx, "c1", flowcontrol.RemoteFlowControls, w.stub)
-	sc := mifSchema(strategy)
-	if typ == "tb" {
-		sc = tbSchema(strategy)
-	}
-	w.lim.Sync(proxyv1alpha1.FlowControl{Schemas: []proxyv1alpha1.FlowControlSchema{sc}})
+	w.syncSpec()
 	return w
 }
 
@@ -179,6 +199,8 @@ type step struct {
 	good     bool
 	answered bool // the server answered with an item for the schema (whatever its numbers)
 	failing  bool
+	spec     bool // an edit of the configured global limit
+	applies  bool // count strategy: an accept / reject answer whose limit the gateway applies
 }
 
 var quotas = []int32{-1, 0, 1, 2, 5, 6, 2147483647}
@@ -237,7 +259,7 @@ func allocateSteps(typ string) []step {
 		step{name: "shard unknown", do: func(w *world) { w.stub.noShard = true; round(w) }},
 		step{name: "shard known", do: func(w *world) { w.stub.noShard = false }},
 	)
-	return out
+	return append(out, specSteps()...)
 }
 
 func countSteps(typ string) []step {
@@ -267,7 +289,7 @@ func countSteps(typ string) []step {
 			acc, q := acc, q
 			out = append(out, step{name: fmt.Sprintf("acquire answer accept=%v limit=%d", acc, q), do: func(w *world) {
 				setLimit(w, &proxyv1alpha1.RateLimitAcquireResult{FlowControl: "s", Accept: acc, Limit: q}, false)
-			}, quota: q, good: acc})
+			}, quota: q, good: acc, applies: true})
 		}
 	}
 	for _, e := range []string{"RequestIDTooOld", "timeout", "x"} {
@@ -283,7 +305,7 @@ func countSteps(typ string) []step {
 		step{name: "server not ready", do: func(w *world) { w.stub.ready = false }},
 		step{name: "server ready", do: func(w *world) { w.stub.ready = true }},
 	)
-	return out
+	return append(out, specSteps()...)
 }
 
 func remoteWrapper(w *world) remote.RemoteFlowControlWrapper {
@@ -330,6 +352,11 @@ func run(c *ev.Check, typ string, strategy proxyv1alpha1.LimitStrategy, steps []
 		if st.failing {
 			w.lastFailed = true
 		}
+		if st.spec {
+			w.editPending = true
+		} else if st.good || st.answered || st.applies { // (a failed round brings no answer that could be clamped)
+			w.editPending = false
+		}
 		usable := w.stub.ready && !w.stub.noShard
 		c.Add("probes", 1)
 		viol := func(key, f string, a ...interface{}) {
@@ -341,13 +368,13 @@ func run(c *ev.Check, typ string, strategy proxyv1alpha1.LimitStrategy, steps []
 			panicked = kit.Try(func() { A = w.probeMIF() })
 			if panicked == "" {
 				c.Outcome("probe_outcomes", fmt.Sprintf("%s/%s/%v/%d", typ, strategy, usable, A))
-				if A > globalMax {
-					viol("exceeds-global-limit", "%d requests are admitted concurrently, the global limit is %d", A, globalMax)
+				if A > w.gMax && !w.editPending {
+					viol("exceeds-global-limit", "%d requests are admitted concurrently, the global limit is %d", A, w.gMax)
 				}
 				if !usable && A != localMax {
 					viol("no-local-fallback", "the limiter server is not usable but %d requests are admitted, the local limit is %d", A, localMax)
 				}
-				if usable && strategy == proxyv1alpha1.GlobalAllocateLimit && st.good && st.quota >= 1 && st.quota <= globalMax && A != int(st.quota) {
+				if usable && strategy == proxyv1alpha1.GlobalAllocateLimit && st.good && st.quota >= 1 && int(st.quota) <= w.gMax && A != int(st.quota) {
 					viol("quota-not-applied", "the server granted %d while ready but %d requests are admitted", st.quota, A)
 				}
 				if usable && strategy == proxyv1alpha1.GlobalCountLimit && typ == "mif" && st.good {
@@ -355,8 +382,8 @@ func run(c *ev.Check, typ string, strategy proxyv1alpha1.LimitStrategy, steps []
 					if want < 1 {
 						want = 1
 					}
-					if want > globalMax {
-						want = globalMax
+					if want > w.gMax {
+						want = w.gMax
 					}
 					if A != want {
 						viol("quota-not-applied", "the server accepted with limit %d while ready (in force: %d within [reserve, global]) but %d requests are admitted", st.quota, want, A)
@@ -371,16 +398,16 @@ func run(c *ev.Check, typ string, strategy proxyv1alpha1.LimitStrategy, steps []
 			panicked = kit.Try(func() { b, r = w.probeTB() })
 			if panicked == "" {
 				c.Outcome("probe_outcomes", fmt.Sprintf("%s/%s/%v/%d/%d", typ, strategy, usable, b, r))
-				if b > globalBurst {
-					viol("exceeds-global-burst", "%d requests admitted at a frozen clock on a refilled bucket, the global burst is %d", b, globalBurst)
+				if b > w.gBurst && !w.editPending {
+					viol("exceeds-global-burst", "%d requests admitted at a frozen clock on a refilled bucket, the global burst is %d", b, w.gBurst)
 				}
-				if r > globalQPS {
-					viol("exceeds-global-rate", "%d requests admitted within the following second, the global rate is %d/s", r, globalQPS)
+				if r > w.gQPS && !w.editPending {
+					viol("exceeds-global-rate", "%d requests admitted within the following second, the global rate is %d/s", r, w.gQPS)
 				}
 				if !usable && (b != localBurst || r != localQPS) {
 					viol("no-local-fallback", "the limiter server is not usable but burst %d / rate %d are admitted, the local bucket is %d / %d", b, r, localBurst, localQPS)
 				}
-				if usable && strategy == proxyv1alpha1.GlobalAllocateLimit && st.good && st.quota >= 1 && st.quota <= globalQPS && r != int(st.quota) {
+				if usable && strategy == proxyv1alpha1.GlobalAllocateLimit && st.good && st.quota >= 1 && int(st.quota) <= w.gQPS && r != int(st.quota) {
 					viol("quota-not-applied", "the server granted %d/s while ready but %d requests per second are admitted", st.quota, r)
 				}
 			}
